@@ -77,7 +77,7 @@ fn make_case(types: &[Ty], position: usize, header_variant: usize, label: String
         files.push(ProjFile::from_doc("lib-ibinder", Document::new("lib", Item::new(ItemKind::Interface, "IBinder"))));
         files.push(ProjFile::from_doc("lib-pfd", Document::new("lib", Item::new(ItemKind::Enum, "ParcelFileDescriptor"))));
     }
-    files.push(ProjFile::from_doc("obs", header));
+    files.push(ProjFile::from_doc_styled("obs", header, types.len() % 2 == 1 || label.contains("..40 ") || label.contains("80..")));
     let oi = files.len() - 1;
     let exp = expect_observed(&files, oi);
     let doc = files[oi].doc.as_ref().unwrap();
